@@ -3,7 +3,7 @@
    state stands for exactly the told-state of the reference model. *)
 Require Import Bytes AMap SMap Names State StateGetters NetRef.
 Require Import OrderLemmas AMapLemmas SMapLemmas NamesProofs StateInv StateHandlers NetRefLemmas StateRefine.
-Require Import RefineSimple RefineJoin RefineLeave RefineNick RefineNames RefineMode.
+Require Import RefineSimple RefineJoin RefineLeave RefineNick RefineNames RefineMode C04Getters.
 From Coq Require Import Lia.
 
 Lemma step_cmd cfg s r e : Inv s -> Fresh s -> Sim s r -> RWf r -> cmd_ok r e = true -> step_ok cfg s r e.
@@ -45,14 +45,14 @@ Proof.
 Qed.
 
 Lemma run_sim cfg : forall h s r, Inv s -> Fresh s -> Sim s r -> RWf r -> conformant_from r h = true ->
-  exists s' o, run cfg s h = Ok (s', o) /\ Inv s' /\ Sim s' (fold_left ref_step h r) /\ RWf (fold_left ref_step h r).
+  exists s' o, run cfg s h = Ok (s', o) /\ Inv s' /\ Sim s' (fold_left ref_step h r) /\ RWf (fold_left ref_step h r) /\ Fresh s'.
 Proof.
   induction h as [|e h IH]; intros s r I F S W Hc; simpl.
-  - exists s, []. split; [reflexivity|]. split; [exact I|]. split; [exact S|exact W].
+  - exists s, []. split; [reflexivity|]. split; [exact I|]. split; [exact S|]. split; [exact W|exact F].
   - simpl in Hc. apply andb_prop in Hc. destruct Hc as [Hc1 Hc2].
     destruct (one_step cfg s r e I F S W Hc1) as (s1 & o1 & H1 & I1 & F1 & S1 & W1). rewrite H1.
-    destruct (IH s1 (ref_step r e) I1 F1 S1 W1 Hc2) as (s2 & o2 & H2 & I2 & S2 & W2). rewrite H2.
-    exists s2, (o1 ++ o2). split; [reflexivity|]. split; [exact I2|]. split; [exact S2|exact W2].
+    destruct (IH s1 (ref_step r e) I1 F1 S1 W1 Hc2) as (s2 & o2 & H2 & I2 & S2 & W2 & F2). rewrite H2.
+    exists s2, (o1 ++ o2). split; [reflexivity|]. split; [exact I2|]. split; [exact S2|]. split; [exact W2|exact F2].
 Qed.
 
 (* C04: every conformant history is processed without panic, and the state reached stands
@@ -60,7 +60,7 @@ Qed.
 Theorem refines cfg h : conformant_history h = true ->
   exists s out, run cfg state_init h = Ok (s, out) /\ abs s = ref_run h.
 Proof.
-  intros Hc. destruct (run_sim cfg h state_init ref_init inv_init fresh_init sim_init rwf_init Hc) as (s & o & H & I & S & W).
+  intros Hc. destruct (run_sim cfg h state_init ref_init inv_init fresh_init sim_init rwf_init Hc) as (s & o & H & I & S & W & _).
   exists s, o. split; [exact H|]. apply sim_eq; assumption.
 Qed.
 
@@ -72,3 +72,120 @@ Proof.
   exists s', o. split; [exact H|]. split; [exact I'|]. split; [exact F'|].
   assert (E : abs s' = ref_step (abs s) e) by (apply sim_eq; assumption). rewrite E. split; [exact W'|reflexivity].
 Qed.
+
+(* everything known about a state reached by a conformant history *)
+Lemma reach cfg h : conformant_history h = true ->
+  exists s o, run cfg state_init h = Ok (s, o) /\ Inv s /\ Fresh s /\ RWf (abs s) /\ abs s = ref_run h.
+Proof.
+  intros Hc. destruct (run_sim cfg h state_init ref_init inv_init fresh_init sim_init rwf_init Hc) as (s & o & H & I & S & W & F).
+  exists s, o. assert (E : abs s = ref_run h) by (apply sim_eq; assumption). rewrite E. split; [exact H|]. split; [exact I|]. split; [exact F|]. split; [exact W|reflexivity].
+Qed.
+
+Lemma conformant_from_app : forall h1 h2 r,
+  conformant_from r (h1 ++ h2) = conformant_from r h1 && conformant_from (fold_left ref_step h1 r) h2.
+Proof.
+  induction h1 as [|e h1 IH]; intros h2 r; simpl; [reflexivity|]. rewrite IH, andb_assoc. reflexivity.
+Qed.
+
+Lemma run_app cfg : forall h1 h2 s s1 o1, run cfg s h1 = Ok (s1, o1) ->
+  run cfg s (h1 ++ h2) = match run cfg s1 h2 with Ok (s2, o2) => Ok (s2, o1 ++ o2) | Panic => Panic end.
+Proof.
+  induction h1 as [|e h1 IH]; intros h2 s s1 o1 H; simpl in *.
+  - injection H as <- <-. destruct (run cfg s h2) as [[s2 o2]|]; reflexivity.
+  - destruct (handle cfg s e) as [[s' o']|]; [|discriminate]. destruct (run cfg s' h1) as [[s'' o'']|] eqn:E; [|discriminate].
+    injection H as <- <-. rewrite (IH h2 s' s'' o'' E). destruct (run cfg s'' h2) as [[s2 o2]|]; [|reflexivity]. rewrite app_assoc. reflexivity.
+Qed.
+
+Lemma v_lookup_channel_ne r name : name <> [] -> v_lookup_channel r name = alookup (key name) (r_chans r).
+Proof. destruct name; [congruence|reflexivity]. Qed.
+
+(* C04_mode_removal: after a conformant history, one more MODE message leaves HasMode(x)
+   true/false according to the last sign under which x occurs in it, and untouched when x
+   does not occur -- for every mode x that is a setting under the server's CHANMODES/PREFIX *)
+Theorem mode_removal cfg h e target flags args x :
+  conformant_history (h ++ [e]) = true -> e_cmd e = c_MODE -> e_params e = target :: flags :: args ->
+  exists s o s' o', run cfg state_init h = Ok (s, o) /\ run cfg state_init (h ++ [e]) = Ok (s', o') /\
+    forall c, g_lookup_channel s target = Some c ->
+      is_setting (ref_chanmodes (abs s)) (ref_prefix_modes (abs s)) x -> (x <? 128) = true ->
+      exists c', g_lookup_channel s' target = Some c' /\
+        g_has_mode c' [x] = match last_sign flags true x with Some b => b | None => g_has_mode c [x] end.
+Proof.
+  intros Hc Hcmd Hps. unfold conformant_history in Hc. rewrite conformant_from_app in Hc. apply andb_prop in Hc. destruct Hc as [Hc1 Hc2].
+  destruct (reach cfg h Hc1) as (s & o & Hrun & I & F & W & E).
+  simpl in Hc2. rewrite andb_true_r in Hc2. fold (ref_run h) in Hc2. rewrite <- E in Hc2.
+  destruct (refines_step cfg s e I F W Hc2) as (s' & o' & Hh & I' & F' & W' & E').
+  exists s, o, s', (o ++ o'). split; [exact Hrun|]. split.
+  { rewrite (run_app cfg h [e] state_init s o Hrun). simpl. rewrite Hh. rewrite app_nil_r. reflexivity. }
+  intros c Hlc Hset Hx.
+  assert (Hne : target <> []) by (intros ->; discriminate).
+  pose proof (g_chan_lookup s target) as G. rewrite Hlc in G. cbn [option_map] in G.
+  pose proof (g_chan_lookup s' target) as G'. rewrite E' in G'.
+  rewrite (v_lookup_channel_ne _ _ Hne) in G. rewrite (v_lookup_channel_ne _ _ Hne) in G'.
+  (* the told-state after the message *)
+  unfold ref_step, ref_apply in G'. unfold ref_gc in G'. cbn [r_chans r_set_users] in G'.
+  assert (Hcmdr : ref_cmd (ref_tag (abs s) e) e = ref_mode (ref_tag (abs s) e) target flags args).
+  { unfold ref_cmd, cmdb. rewrite Hcmd, Hps. reduce_cmd c_MODE. reflexivity. }
+  rewrite Hcmdr in G'. unfold ref_mode, upd_chan in G'. cbn [r_chans r_set_chans] in G'. rewrite alookup_sm_adjust, streqb_refl in G'.
+  assert (Htag : r_chans (ref_tag (abs s) e) = r_chans (abs s) /\ r_opts (ref_tag (abs s) e) = r_opts (abs s)).
+  { unfold ref_tag. destruct (e_src e); [|split; reflexivity]. destruct (e_account_tag e); split; reflexivity. }
+  destruct Htag as [T1 T2]. rewrite T1 in G'. rewrite <- G in G'. cbn [option_map] in G'.
+  assert (Hcm : ref_chanmodes (ref_tag (abs s) e) = ref_chanmodes (abs s)) by (unfold ref_chanmodes; rewrite T2; reflexivity).
+  assert (Hpm : ref_prefix_modes (ref_tag (abs s) e) = ref_prefix_modes (abs s)) by (unfold ref_prefix_modes; rewrite T2; reflexivity).
+  rewrite Hcm, Hpm in G'.
+  destruct (g_lookup_channel s' target) as [c'|]; [|discriminate]. cbn [option_map] in G'. injection G' as G'.
+  exists c'. split; [reflexivity|].
+  rewrite (g_has_mode_spec s' (fold target) c' x Hx), G', (mode_walk_has _ _ _ Hset).
+  rewrite <- (g_has_mode_spec s (fold target) c x Hx). reflexivity.
+Qed.
+
+(* users are forgotten exactly when they share no tracked channel -- in every state the
+   client can reach, conformant history or not *)
+Theorem users_forgotten cfg h s o nick : run cfg state_init h = Ok (s, o) -> nick <> [] ->
+  (g_lookup_user s nick <> None <-> exists c, In c (g_channels s) /\ g_channel_user_in c nick = true).
+Proof.
+  intros Hrun Hne. destruct (all_histories cfg h) as (s1 & o1 & H1 & I1). rewrite Hrun in H1. injection H1 as <- <-.
+  apply user_tracked_iff; assumption.
+Qed.
+
+Lemma told_canonical h : RWf (ref_run h).
+Proof. apply rwf_run, rwf_init. Qed.
+
+(* ---- a conformant history (non-vacuity of the hypotheses) ---- *)
+
+Local Open Scope string_scope.
+
+Definition ex_srv (cmd : string) (ps : list string) : event :=
+  mkEvent (Some (mkSource (bs "irc.test") [] [])) None (bs cmd) (List.map bs ps).
+Definition ex_usr (n cmd : string) (ps : list string) : event :=
+  mkEvent (Some (mkSource (bs n) (bs "~u") (bs "h.example"))) None (bs cmd) (List.map bs ps).
+
+(* two channels, a case-only rename, multi-prefix NAMES, +ntk key, -k key, +l 5, a PART *)
+Definition ex_history : list event := [
+  ex_srv "001" ["me"; "Welcome"];
+  ex_srv "005" ["me"; "CHANMODES=beI,k,l,imnpst"; "PREFIX=(qaohv)~&@%+"; "are supported by this server"];
+  ex_usr "me" "JOIN" ["#Chan"];
+  ex_srv "353" ["me"; "="; "#chan"; "me @+alice ~&bob "];
+  ex_usr "me" "JOIN" ["&Two"];
+  ex_srv "353" ["me"; "@"; "&two"; "@me +alice"];
+  ex_usr "ALICE" "NICK" ["Alice"];
+  ex_srv "MODE" ["#CHAN"; "+ntk"; "key"];
+  ex_srv "MODE" ["#chan"; "-k"; "key"];
+  ex_srv "MODE" ["#chan"; "+l"; "5"];
+  ex_usr "bob" "PART" ["#chan"] ].
+
+Example ex_conformant : conformant_history ex_history = true.
+Proof. vm_compute. reflexivity. Qed.
+
+(* what the client has been told by it *)
+Example ex_told :
+  let r := ref_run ex_history in
+  v_channel_list r = [bs "#Chan"; bs "&Two"] /\ v_user_list r = [bs "Alice"; bs "me"] /\
+  option_map (fun c => (v_channel_users c, v_modes_string (rc_modes c), mode_has 107 (rc_modes c), mode_arg 108 (rc_modes c)))
+     (v_lookup_channel r (bs "#CHAN")) = Some ([bs "alice"; bs "me"], bs "+ntl 5", false, Some (bs "5")) /\
+  v_perm r (bs "#chan") (bs "ALICE") = Some (mkPerms false false true false true) /\
+  v_perm r (bs "&TWO") (bs "alice") = Some (mkPerms false false false false true) /\
+  v_lookup_user r (bs "bob") = None /\ v_user_channels r (bs "alice") = [bs "#chan"; bs "&two"].
+Proof. vm_compute. repeat split; reflexivity. Qed.
+
+Example ex_mode_history : conformant_history (firstn 9 ex_history ++ [nth 9 ex_history (ex_srv "" [])]) = true.
+Proof. vm_compute. reflexivity. Qed.
